@@ -105,6 +105,11 @@ def run(ctx):
                    "closed for ever)", min_sites=8)
     from .c08 import lock_counter_range
     lock_counter_range(ctx, "T7")
+    ctx.rule("T8", "the watchdog's error response reaches the master whose request timed out: the arbiters keep the grant while any "
+                   "channel of the target is valid, the response channels (b / r) included -- the locks do not count a request whose "
+                   "address beat was never accepted", min_sites=4)
+    from .c08 import arbiter_grant_freeze
+    arbiter_grant_freeze(ctx, "T8")
     ctx.rule("T3", "Timeout bodies: wait condition, forced termination with error data, RESPOND exits only on the response "
                    "handshake, error pulse, RESP_SLVERR = 0b10", min_sites=40)
     ctx.rule("T4", "WaitTimer: done = count == 0; decrement under wait & ~done; reload when not waiting; reset value t", min_sites=4)
